@@ -32,7 +32,10 @@ VARIABLES
   last
 vars == <<nextId, ends, name, wire, listening, pending, openAt, logged, internal, last>>
 
-NoEnd == [st |-> "none", ev |-> <<>>, pend |-> <<>>, pclose |-> FALSE, writes |-> 0, err |-> <<>>]
+\* lclosed: the application's loseConnection()/loseWriteConnection() was accepted; closes: CLOSE records this end
+\* has emitted; lateok: writes accepted (no exception) after lclosed
+NoEnd == [st |-> "none", ev |-> <<>>, pend |-> <<>>, pclose |-> FALSE, writes |-> 0, err |-> <<>>,
+          lclosed |-> FALSE, closes |-> 0, lateok |-> 0]
 FreshEnd == [NoEnd EXCEPT !.st = Init_SC]
 Rec(t, id, x) == [t |-> t, id |-> id, x |-> x]
 
@@ -54,7 +57,7 @@ RunOuts(r, outs, id, arg) ==
            r1 == CASE o = "queue_remote_data"  -> [r EXCEPT !.end.pend = Append(@, arg)]
                    [] o = "queue_remote_close" -> [r EXCEPT !.end.pclose = TRUE]
                    [] o = "send_data"          -> [r EXCEPT !.out = Append(@, Rec("data", id, arg))]
-                   [] o = "send_close"         -> [r EXCEPT !.out = Append(@, Rec("close", id, "-"))]
+                   [] o = "send_close"         -> [r EXCEPT !.out = Append(@, Rec("close", id, "-")), !.end.closes = @ + 1]
                    [] o = "signal_dataReceived"      -> [r EXCEPT !.end.ev = Append(@, <<"data", arg>>)]
                    [] o = "signal_connectionLost"    -> [r EXCEPT !.end.ev = Append(@, <<"lost", "-">>)]
                    [] o = "signal_readConnectionLost"  -> [r EXCEPT !.end.ev = Append(@, <<"readlost", "-">>)]
@@ -134,13 +137,14 @@ AppWrite(id, e) ==
   /\ HasProtocol(ends[id][e]) /\ ends[id][e].writes < MaxWrites
   /\ LET d == "w" \o ToString(id) \o e \o ToString(ends[id][e].writes)
          r == Input([ends[id][e] EXCEPT !.writes = @ + 1], "local_data", id, d) IN
-     Apply(id, e, r)
+     Apply(id, e, IF r.raised = "" /\ ends[id][e].lclosed THEN [r EXCEPT !.end.lateok = @ + 1] ELSE r)
   /\ last' = <<"AppWrite", e, id>>
   /\ UNCHANGED <<nextId, name, listening, pending, logged>>
 \* loseConnection() (or loseWriteConnection() for half-closeable protocols)
 AppClose(id, e) ==
   /\ HasProtocol(ends[id][e]) /\ Len(ends[id][e].err) < 2
-  /\ Apply(id, e, Input(ends[id][e], "local_close", id, "-"))
+  /\ LET r == Input(ends[id][e], "local_close", id, "-") IN
+     Apply(id, e, IF r.raised = "" THEN [r EXCEPT !.end.lclosed = TRUE] ELSE r)
   /\ last' = <<"AppClose", e, id>>
   /\ UNCHANGED <<nextId, name, listening, pending, logged>>
 
@@ -208,4 +212,8 @@ IdsDisjoint == \A id \in Ids : name[id] # "-" => (OwnerOf(id) = "L") = (id % 2 =
 \* an OPEN for a subprotocol outside the declared set is refused by closing, not held open
 UnexpectedRefused == \A s \in Sides : \A i \in 1..Len(pending[s]) : ExpectedOK(s, name[pending[s][i]])
 NoInternal == internal = <<>>
+\* a write issued after the application's own (accepted) close raises instead of being sent
+WriteAfterCloseErrors == \A p \in AllEnds : ends[p[1]][p[2]].lateok = 0
+\* each end emits CLOSE at most once
+CloseOnce == \A p \in AllEnds : ends[p[1]][p[2]].closes <= 1
 ====
